@@ -1,9 +1,11 @@
 #!/bin/sh
-# Build the framework offline from files on disk: Lean library + model driver, Go harness, extractor.
+# Build the framework offline from files on disk: extractor + translator output first (the Lean library imports it), then the Lean
+# library + model driver, then the Go harness.
 set -e
 cd "$(dirname "$0")"
 export GOFLAGS=-mod=mod GOPROXY=off GOSUMDB=off GOTOOLCHAIN=local
 mkdir -p build evidence
+python3 -c "import sys; sys.path.insert(0,'.'); import vlib; ok2,msg=vlib.run_extract(); print('extract', ok2, msg[:300]); sys.exit(0 if ok2 else 1)"
 python3 -c "import sys; sys.path.insert(0,'.'); import vlib; vlib.gen_main()"
 (cd lean && lake build Relay relaydrv)
-python3 -c "import sys; sys.path.insert(0,'.'); import vlib; ok,log,exe=vlib.build_harness(); print('harness', ok, log[-2000:]); ok2,msg=vlib.run_extract(); print('extract', ok2, msg[:300]); sys.exit(0 if ok and ok2 else 1)"
+python3 -c "import sys; sys.path.insert(0,'.'); import vlib; ok,log,exe=vlib.build_harness(); print('harness', ok, log[-2000:]); sys.exit(0 if ok else 1)"
